@@ -1,9 +1,10 @@
 import CnvVerif.Driver.Json
 import CnvVerif.Driver.Interval
+import CnvVerif.Driver.Call
 open Lean CnvVerif.Drv
 
 def handlers : List (String → Json → Option Json → R (Option Json)) :=
-  [handleInterval]
+  [handleInterval, handleCall]
 
 def dispatch (op : String) (inp : Json) (impl : Option Json) : R Json := do
   for h in handlers do
